@@ -122,7 +122,18 @@ func checkReservedUniverse(c *core.Ctx, l *core.Ledger) {
 // an enum item or a type is the very function applied where another part of
 // the generated code refers to it.
 func checkNameAgree(c *core.Ctx, l *core.Ledger, mod *tmpl.Model) {
+	// the declaring Go function may have been renamed: resolve it through the anchor table
+	declKey := func(name string) string {
+		if _, has := mod.ByDecl[name]; has {
+			return name
+		}
+		if o := c.LookupFunc("gen", name); o != nil && c.Decl(o) != nil {
+			return core.DeclName(c.Decl(o))
+		}
+		return name
+	}
 	bindingIn := func(declName, fn string) *types.Func {
+		declName = declKey(declName)
 		for _, t := range mod.ByDecl[declName] {
 			if b := t.Funcs[fn]; b != nil && b.Obj != nil {
 				return b.Obj
@@ -134,6 +145,7 @@ func checkNameAgree(c *core.Ctx, l *core.Ledger, mod *tmpl.Model) {
 		return nil
 	}
 	usesFunc := func(declName, fn string) bool {
+		declName = declKey(declName)
 		for _, t := range mod.ByDecl[declName] {
 			if strings.Contains(t.Text, "<"+fn+" ") || strings.Contains(t.Text, " "+fn+" ") || strings.Contains(t.Text, "("+fn+" ") || strings.Contains(t.Text, "-"+fn+" ") || strings.Contains(t.Text, "- "+fn+" ") {
 				return true
